@@ -62,9 +62,9 @@ PAIRS = [("fr_sig", "en_sig", False), ("fr_def", "tl_def", False), ("en_def", "e
          ("tuple_fr", "tl_def", False), ("tuple_sig", "en_sig", False), ("tuple_tl", "fr_def", False), ("tuple_fr", "tuple_tl", False)]
 
 
-def explore(ctx, a, b, cold, points, budget, tbudget):
+def explore(ctx, a, b, cold, points, budget, tbudget, fork=False):
     req = {"A": POOL[a], "B": POOL[b], "cold": cold, "points": points, "budget": budget, "seed": ctx.seed,
-           "block_timeout": 0.03, "time_budget": tbudget}
+           "block_timeout": 0.03, "time_budget": tbudget, "fork": fork}
     p = subprocess.run([core.PY, DRV], input=json.dumps(req), env=ctx.pyenv(), stdout=subprocess.PIPE, stderr=subprocess.PIPE,
                        text=True, timeout=tbudget + 300)
     if p.returncode != 0:
@@ -92,12 +92,17 @@ def run(ctx):
             jobs.append((a, b, cold))
             if a != b:
                 jobs.append((b, a, cold))
+        # the same pairs inside a forked child (inherited locks and caches): a sample in the quick tier
+        FORKED = [("ddp_fr", "tl_def"), ("tl_def", "ddp_fr"), ("tuple_fr", "tl_def"), ("ddp_sig", "search_sig"), ("jalali", "fr_def"), ("fr_def", "jalali"),
+                  ("ddp_fr", "ddp_sig"), ("fr_sig", "en_sig")]
+        for a, b in (FORKED if ctx.quick() else [(x, y) for x, y, _ in PAIRS] + [(y, x) for x, y, _ in PAIRS if x != y]):
+            jobs.append((a, b, False, True))
     points = "hot" if ctx.quick() else "all"
     budget = 150 if ctx.quick() else 100000
     tb = 60 if ctx.quick() else 500
 
     def one(j):
-        return explore(ctx, j[0], j[1], j[2], points, budget, tb)
+        return explore(ctx, j[0], j[1], j[2], points, budget, tb, fork=len(j) > 3)
 
     with cf.ThreadPoolExecutor(max_workers=core.NCPU) as ex:
         outs = list(ex.map(one, jobs))
